@@ -60,8 +60,93 @@ thread_local! {
 
 static HOOK: Once = Once::new();
 
+thread_local! {
+    /// produces the descriptor of the case this thread is executing (set by `case_scope`)
+    static CURRENT_CASE: std::cell::Cell<Option<*const (dyn Fn() -> String + 'static)>> = const { std::cell::Cell::new(None) };
+}
+
+/// While the returned guard lives, an abort of the process on this thread is attributed to the case `desc()` names.
+pub fn case_scope<'a>(desc: &'a (dyn Fn() -> String + 'a)) -> CaseScope<'a> {
+    // the pointer is cleared before `desc` goes out of scope (guard lifetime), so the lifetime erasure is sound
+    let p: *const (dyn Fn() -> String + 'a) = desc;
+    let p: *const (dyn Fn() -> String + 'static) = unsafe { std::mem::transmute(p) };
+    let prev = CURRENT_CASE.with(|c| c.replace(Some(p)));
+    CaseScope { prev, _m: std::marker::PhantomData }
+}
+
+pub struct CaseScope<'a> {
+    prev: Option<*const (dyn Fn() -> String + 'static)>,
+    _m: std::marker::PhantomData<&'a ()>,
+}
+
+impl Drop for CaseScope<'_> {
+    fn drop(&mut self) {
+        let _ = CURRENT_CASE.try_with(|c| c.set(self.prev));
+    }
+}
+
+fn current_case() -> String {
+    CURRENT_CASE
+        .try_with(|c| c.get())
+        .ok()
+        .flatten()
+        .map(|p| unsafe { (*p)() })
+        .unwrap_or_else(|| "unknown (the aborting thread runs no harness case)".to_string())
+}
+
+fn payload_text(info: &panic::PanicHookInfo<'_>) -> String {
+    if let Some(s) = info.payload().downcast_ref::<&str>() {
+        s.to_string()
+    } else if let Some(s) = info.payload().downcast_ref::<String>() {
+        s.clone()
+    } else {
+        "<non-string panic payload>".to_string()
+    }
+}
+
+fn file_for_marker(info: &panic::PanicHookInfo<'_>) -> String {
+    info.location().map(|l| l.file().to_string()).unwrap_or_default()
+}
+
+fn one_line(s: &str) -> String {
+    s.replace('\n', " ").chars().take(300).collect()
+}
+
+/// SIGABRT / SIGSEGV / SIGBUS / SIGILL in a harness process: leave a marker for the driver (no allocation, no
+/// formatting), then die by the default action.
+extern "C" fn fatal_signal(sig: libc::c_int) {
+    let msg: &[u8] = match sig {
+        libc::SIGABRT => b"VERIF-ABORT signal=SIGABRT\n",
+        libc::SIGSEGV => b"VERIF-ABORT signal=SIGSEGV\n",
+        libc::SIGBUS => b"VERIF-ABORT signal=SIGBUS\n",
+        _ => b"VERIF-ABORT signal=other\n",
+    };
+    unsafe {
+        libc::write(2, msg.as_ptr() as *const libc::c_void, msg.len());
+        libc::signal(sig, libc::SIG_DFL);
+        libc::raise(sig);
+    }
+}
+
 pub fn install_panic_hook() {
     HOOK.call_once(|| {
+        if std::env::var_os("VERIF_ASAN").is_none() {
+            unsafe {
+                // an alternate stack, so that a stack overflow can be reported too
+                let size = 64 << 10;
+                let stack = libc::mmap(std::ptr::null_mut(), size, libc::PROT_READ | libc::PROT_WRITE, libc::MAP_PRIVATE | libc::MAP_ANONYMOUS, -1, 0);
+                if stack != libc::MAP_FAILED {
+                    let ss = libc::stack_t { ss_sp: stack, ss_flags: 0, ss_size: size };
+                    libc::sigaltstack(&ss, std::ptr::null_mut());
+                }
+                for sig in [libc::SIGABRT, libc::SIGSEGV, libc::SIGBUS, libc::SIGILL] {
+                    let mut sa: libc::sigaction = std::mem::zeroed();
+                    sa.sa_sigaction = fatal_signal as usize;
+                    sa.sa_flags = libc::SA_ONSTACK | libc::SA_RESETHAND;
+                    libc::sigaction(sig, &sa, std::ptr::null_mut());
+                }
+            }
+        }
         let default = panic::take_hook();
         panic::set_hook(Box::new(move |info| {
             let (file, line) = info
@@ -83,6 +168,14 @@ pub fn install_panic_hook() {
                     *p = Some(PanicInfo { file, line, msg });
                 }
             });
+            // A panic that cannot unwind (Rust's checks of unsafe preconditions, a panic inside a destructor during
+            // unwinding, a panic across an FFI boundary) aborts the whole harness process. The marker line lets the
+            // driver attribute the abort to the code under test and to the case in flight.
+            let text = payload_text(info);
+            if text.starts_with("unsafe precondition(s) violated") || text.contains("cannot unwind") || text.contains("destructor during cleanup") {
+                let case = current_case();
+                eprintln!("VERIF-ABORT site={}:{} msg={} case={}", file_for_marker(info), info.location().map(|l| l.line()).unwrap_or(0), one_line(&text), case);
+            }
             let quiet = QUIET.with(|q| *q.borrow());
             if !quiet {
                 default(info);
